@@ -78,9 +78,84 @@ def gen_view(rng, nsig, depth, lab):
     return [3, l, int(rng.random() < 0.4), c, a, b]
 
 
+CLEANUP = 500
+
+
+def gen_ext_view(rng, nsig, depth, lab, in_if=False):
+    """views that also contain async leaves (4 l sync_expr async_expr) and keyed lists (5 l sig lists)"""
+    r = rng.random()
+    if depth <= 0:
+        r *= 0.6
+    if r < 0.08:
+        return [0, rng.randint(0, 9)]
+    if r < 0.22:
+        return [1, lab.next(), gen_expr(rng, nsig)]
+    if r < 0.45:
+        es = gen_expr(rng, nsig) if rng.random() < 0.6 else [1, rng.randint(0, 2)]
+        return [4, lab.next(), es, gen_expr(rng, nsig)]
+    if r < 0.60:
+        keys = rng.sample(range(1, 10), rng.randint(3, 5))
+        lists = [list(keys)]
+        for _ in range(rng.randint(2, 4)):
+            m = rng.random()
+            cur = list(rng.choice(lists))
+            if m < 0.3 and cur:
+                cur = cur[rng.randint(1, len(cur)):] if rng.random() < 0.5 else cur[:-1]
+            elif m < 0.55:
+                new = [k for k in range(1, 10) if k not in cur]
+                if new:
+                    cur.insert(rng.choice([0, 0, len(cur), rng.randint(0, len(cur))]), rng.choice(new))
+            elif m < 0.8:
+                rng.shuffle(cur)
+            else:
+                cur = []
+            lists.append(cur)
+        return [5, lab.next(), rng.randrange(nsig), lists]
+    if r < 0.85:
+        props = []
+        for k in [0, rng.choice([1, 2]), 3]:
+            if rng.random() < 0.25:
+                props.append([k, lab.next(), gen_expr(rng, nsig)])
+        kids = [gen_ext_view(rng, nsig, depth - 1, lab, in_if) for _ in range(rng.choice([1, 2, 2, 3]))]
+        return [2, props, kids]
+    l = lab.next()
+    return [3, l, int(rng.random() < 0.4), gen_expr(rng, nsig),
+            gen_ext_view(rng, nsig, depth - 1, lab, True), gen_ext_view(rng, nsig, depth - 1, lab, True)]
+
+
+def has_ext(v):
+    if v[0] in (4, 5):
+        return True
+    if v[0] == 2:
+        return any(has_ext(k) for k in v[2])
+    if v[0] == 3:
+        return has_ext(v[4]) or has_ext(v[5])
+    return False
+
+
+def gen_ext_case(rng):
+    nsig = rng.choice([1, 2, 2, 3])
+    while True:
+        view = [2, [], [gen_ext_view(rng, nsig, rng.choice([1, 2, 2]), Lab()) for _ in range(rng.choice([1, 2]))]]
+        labs = labels_all(view)
+        if has_ext(view) and len(labs) == len(set(labs)):
+            break
+    sigs = [rng.randint(0, 2) for _ in range(nsig)]
+    steps = []
+    for _ in range(rng.randint(2, 7)):
+        writes = [[rng.randrange(nsig), rng.choice([0, 1, 2, 3, 4])] for _ in range(rng.choice([0, 1, 1, 1, 2]))]
+        picks = [rng.randint(0, 7) for _ in range(rng.choice([0, 0, 3, 6]))]
+        r = rng.random()
+        comps = [] if r < 0.3 else ([0, 0, 0, 0] if r < 0.6 else [rng.randint(-2, 3) for _ in range(rng.randint(1, 3))])
+        steps.append([writes, picks, comps])
+    return dict(case=[view, sigs, steps, [rng.randint(0, 1)]], kind="async-keyed", compare=False)
+
+
 def generate(rng, tier):
     n = 4000 if tier == "quick" else 60000
-    for _ in range(n):
+    for i in range(n):
+        if i % 3 == 0:
+            yield gen_ext_case(rng)
         nsig = rng.choice([1, 2, 2, 3])
         view = gen_view(rng, nsig, rng.choice([1, 2, 2, 3, 3]), Lab())
         if rng.random() < 0.5:
@@ -123,7 +198,7 @@ def rd(e):
 def labels_all(v):
     if v[0] == 0:
         return []
-    if v[0] == 1:
+    if v[0] in (1, 4, 5):
         return [v[1]]
     if v[0] == 2:
         out = [p[1] for p in v[1]]
@@ -151,7 +226,7 @@ def may_run(v, s0, s1):
     to s1: every conditional on the way selected its branch with the old or the new values"""
     if v[0] == 0:
         return set()
-    if v[0] == 1:
+    if v[0] in (1, 4, 5):
         return {v[1]}
     if v[0] == 2:
         out = {p[1] for p in v[1]}
@@ -162,6 +237,61 @@ def may_run(v, s0, s1):
     for s in (s0, s1):
         out |= may_run(v[4] if ev(v[3], s) != 0 else v[5], s0, s1)
     return out
+
+
+def fresh_list(v, s, wild=False):
+    """nodes of a from-scratch render of an extended view; with wild, an async leaf is ["?"]"""
+    if v[0] == 4:
+        return [["?"]] if wild else [[0, ev(v[2], s) + ev(v[3], s)]]
+    if v[0] == 5:
+        lists = v[3]
+        items = lists[s[v[2]] % len(lists)] if lists else []
+        return [[0, i * 100 + k] for i, k in enumerate(items)]
+    if v[0] == 2:
+        p = [-1, -1, 0, -1]
+        for k, _l, e in v[1]:
+            x = ev(e, s)
+            p[k] = (1 if x != 0 else 0) if k == 2 else x
+        return [[1, p, [n for k in v[2] for n in fresh_list(k, s, wild)]]]
+    if v[0] == 3:
+        return fresh_list(v[4] if ev(v[3], s) != 0 else v[5], s, wild)
+    return [fresh(v, s)]
+
+
+def match_wild(want, got):
+    """does the node list `got` equal `want` where a ["?"] stands for no node or one text node"""
+    if not want:
+        return not got
+    w = want[0]
+    if w == ["?"]:
+        return match_wild(want[1:], got) or (bool(got) and got[0][0] == 0 and match_wild(want[1:], got[1:]))
+    if not got:
+        return False
+    g = got[0]
+    if w[0] != g[0]:
+        return False
+    if w[0] == 0:
+        return w[1] == g[1] and match_wild(want[1:], got[1:])
+    return w[1] == g[1] and match_wild(w[2], g[2]) and match_wild(want[1:], got[1:])
+
+
+def top_level_text_labels(v):
+    """labels of the text closures that are not inside a conditional (one instance for the whole run)"""
+    if v[0] == 1:
+        return [v[1]]
+    if v[0] == 2:
+        return [l for k in v[2] for l in top_level_text_labels(k)]
+    return []
+
+
+def cleanup_violation(view, logs):
+    for l in top_level_text_labels(view):
+        seq = [x for lg in logs for x in lg if x in (l, l + CLEANUP)]
+        for i, x in enumerate(seq):
+            if x != (l if i % 2 == 0 else l + CLEANUP):
+                return ("closure %d: its on_cleanup callback did not run between two of its runs (or ran without one): %r"
+                        % (l, seq[:12]))
+    return None
 
 
 def fresh(v, s):
@@ -215,9 +345,34 @@ def untouched_violations(v, node, s, ganc, written, out):
             untouched_violations(k, kn, s, ganc, written, out)
 
 
+def oracle_ext(item, impl):
+    view, sigs, steps, _drain = item["case"]
+    s = list(sigs)
+    if len(impl) != len(steps) + 2:
+        return "malformed observation"
+    for entry in impl:
+        if not (isinstance(entry, list) and len(entry) == 3 and isinstance(entry[0], list) and isinstance(entry[1], list)):
+            return "malformed observation"
+    for k, (lg, nodes, fresh_eq) in enumerate(impl):
+        if 0 < k <= len(steps):
+            for i, x in steps[k - 1][0]:
+                s[i] = x
+        got = [plain(n) for n in nodes]
+        if k == len(impl) - 1:
+            if got != fresh_list(view, s):
+                return "all futures completed, executor idle: the DOM is not the render of the latest signal values"
+            if fresh_eq != 1:
+                return "all futures completed, executor idle: the DOM differs from a fresh mount"
+        elif not match_wild(fresh_list(view, s, wild=True), got):
+            return "idle point %d: outside the pending async leaves the DOM is not the render of the current signal values" % k
+    return cleanup_violation(view, [e[0] for e in impl])
+
+
 def oracle(item, impl):
     if isinstance(impl, str):
         return "harness error / panic: " + impl[:200]
+    if item.get("kind") == "async-keyed":
+        return oracle_ext(item, impl)
     view, sigs, steps = item["case"]
     s = list(sigs)
     if len(impl) != len(steps) + 1:
@@ -245,13 +400,15 @@ def oracle(item, impl):
             if bad:
                 return "idle point %d: %s" % (k, bad[0])
             ok = may_run(view, before, s)
-            stray = [l for l in lg if l not in ok]
+            stray = [l for l in lg if l < CLEANUP and l not in ok]
             if stray:
                 return "idle point %d: closure %d ran although its branch cannot be mounted during this step" % (k, stray[0])
-    return None
+    return cleanup_violation(view, [e[0] for e in impl])
 
 
 def nontrivial(item, model):
+    if item.get("kind") == "async-keyed":
+        return True
     if isinstance(model, str):
         return False
     for k in range(1, len(model)):
@@ -262,6 +419,17 @@ def nontrivial(item, model):
 
 def valid_case(item):
     c = item["case"]
+    if item.get("kind") == "async-keyed":
+        try:
+            view, sigs, steps, drain = c
+            labs = labels_all(view)
+            return (len(labs) == len(set(labs)) and all(0 < l < CLEANUP for l in labs) and bool(sigs)
+                    and all(x >= 0 for x in sigs) and _shape_ok(view, len(sigs)) and drain in ([0], [1])
+                    and all(len(st) == 3 and all(0 <= i < len(sigs) and x >= 0 for i, x in st[0])
+                            and all(isinstance(k, int) and k >= 0 for k in st[1])
+                            and all(isinstance(k, int) for k in st[2]) for st in steps))
+        except Exception:
+            return False
     try:
         view, sigs, steps = c
         labs = labels_all(view)
@@ -295,6 +463,11 @@ def _shape_ok(v, n):
         if kinds != sorted(set(kinds)) or (1 in kinds and 2 in kinds) or any(k not in (0, 1, 2, 3) for k in kinds):
             return False
         return len(v) == 3 and all(len(p) == 3 and _expr_ok(p[2], n) for p in v[1]) and all(_shape_ok(k, n) for k in v[2])
+    if v[0] == 4:
+        return len(v) == 4 and _expr_ok(v[2], n) and _expr_ok(v[3], n)
+    if v[0] == 5:
+        return (len(v) == 4 and 0 <= v[2] < n and len(v[3]) >= 1
+                and all(len(set(l)) == len(l) and all(0 < k < 100 for k in l) for l in v[3]))
     return v[0] == 3 and len(v) == 6 and v[2] in (0, 1) and _expr_ok(v[3], n) and _shape_ok(v[4], n) and _shape_ok(v[5], n)
 
 
@@ -319,10 +492,19 @@ def _sv(v):
         names = ["title", "class", "class:on", "style:width"]
         ps = "".join(" %s={#%d %s}" % (names[k], l, _se(e)) for k, l, e in v[1])
         return "<div%s>%s</div>" % (ps, " ".join(_sv(k) for k in v[2]))
+    if v[0] == 4:
+        return "{#%d let a=%s; Suspend(async a+%s)}" % (v[1], _se(v[2]), _se(v[3]))
+    if v[0] == 5:
+        return "{#%d keyed-enumerate %r[s%d]}" % (v[1], v[3], v[2])
     return "{#%d %sif %s {%s} else {%s}}" % (v[1], "memo " if v[2] else "", _se(v[3]), _sv(v[4]), _sv(v[5]))
 
 
 def describe(it):
+    if it.get("kind") == "async-keyed":
+        view, sigs, steps, drain = it["case"]
+        return "mount %s with s=%r; steps %s; then complete all (%s first)" % (_sv(view), sigs, "; ".join(
+            "set %s, poll order %r, complete futures %r" % (",".join("s%d=%d" % (i, x) for i, x in w), p, c)
+            for w, p, c in steps), "newest" if drain[0] else "oldest")
     view, sigs, steps = it["case"]
     return "mount %s with s=%r; steps %s" % (_sv(view), sigs, "; ".join(
         "set %s, poll order %r" % (",".join("s%d=%d" % (i, x) for i, x in w), p) for w, p in steps))
@@ -333,7 +515,7 @@ def coverage_extra(results):
     switches = 0
     for r in results:
         m = r["model"]
-        if isinstance(m, str):
+        if isinstance(m, str) or r["item"].get("kind") == "async-keyed":
             continue
         for k in range(1, len(m)):
             runs += len(m[k][0])
